@@ -30,6 +30,15 @@ CHECKS = {
         "(exhaustive at the transition level, a superset of all sequences up to length 12), random long traces with resets, and recorded loss streams of the real optimize/ICP/MPC loops replayed through the model loop.",
    note=TB + "axioms: none for the generic theorems; the reset theorem is over R (Coq Reals axioms). IEEE inf/nan semantics of (last-loss)/loss is written into the model (rel_lt) and validated by the tie; NaN losses are not modelled.",
    technique="Coq proof by induction over loss sequences + exhaustive transition-level exact correspondence", design="5/C20"),
+ 'C08': dict(
+   text="Proof (Coq, over R, abstract parameter space / loss / retraction with retract(retract t d)(-d)=t / arbitrary solver oracle incl. raising at any solve): one LevenbergMarquardt.step terminates, returns and caches "
+        "the true loss of the parameters it leaves behind, which is <= the loss it was given unless reject_count reached `reject`, makes <= reject+1 solves, leaves the parameters either exactly as given "
+        "(all trials rejected / solver raised; loss unchanged) or as the single last trial; rejected trials restore the parameters; GN.step returns the new loss and records the old one; by induction over any "
+        "sequence of calls every returned value is the true loss. Strategies: documented transition tables (Constant/Adaptive/TrustRegion) and damping/radius/down within [min,max] after every update of any history. "
+        "Tie: scripted universe (scalar parameter, loss theta^2, user solver returning scripted steps or raising at solve j for every j, first k trials worse for k=0..reject+1, reject 0..16, three real strategies "
+        "with power-of-two hyper-parameters): full observable traces of up to 30 step() calls equal the model bit for bit; real (ill-)conditioned residual models with kernels are checked against the proved clauses.",
+   note=TB + "axioms: Coq Reals. Strategies with non-dyadic hyper-parameters and NaN losses are not in the exact tie; group retraction undo (Exp(-d)Exp(d)X = X) is an explicit hypothesis of the theorem (holds up to round-off in floats).",
+   technique="Coq proof (loop invariant, induction over calls) + exact trace correspondence in a scripted universe", design="5/C08"),
 }
 
 NOT_YET = {}
